@@ -211,6 +211,7 @@ impl Ctx {
 
     /// Write the evidence file and exit with the verdict's exit code.
     pub fn finish(&self, mut coverage: Value, assumptions: Vec<String>) -> ! {
+        workers::remove_own_scratch();
         let inner = self.inner.lock().unwrap();
         let wall = self.start.elapsed().as_secs_f64();
         if let Some(obj) = coverage.as_object_mut() {
